@@ -126,7 +126,7 @@ theorem stage1Fn_length (sc : Scope) (f : Fn) :
   · by_cases hu : f.usesT = true
     · by_cases hd : f.ndefaults = 0
       · simp [he, hu, hd]
-      · simp [he, hu, hd, variants_length]
+      · simp [he, hu, hd]
     · simp [he, hu]
   · by_cases hd : f.ndefaults = 0
     · simp [he, hd, templateClones_length]; omega
@@ -158,7 +158,7 @@ theorem stage1Fn_sum (sc : Scope) (f : Fn) (g : Rec → Nat) (K : Nat)
     (h0 : ∀ r : Rec, r.wrap = ⟨false, false, false, false⟩ → g r = 0)
     (hdc : ∀ k, g (defaultClone sc f k) = K)
     (ho : g (original sc f) = K)
-    (hu : g { f.base sc with gen := .cxxTemplate, wrap := sc.w0 } = K)
+    (hu : g (usesTClone sc f) = K)
     (hc : ∀ c ∈ templateClones (f.base sc) sc.w0 0 f.tinst, g c = K) :
     ((stage1Fn sc f).map g).sum
       = (if f.tinst.isEmpty then f.ndefaults + 1 else f.tinst.length * (f.ndefaults + 1)) * K := by
@@ -169,7 +169,9 @@ theorem stage1Fn_sum (sc : Scope) (f : Fn) (g : Rec → Nat) (K : Nat)
     · by_cases hd : f.ndefaults = 0
       · simp [hut, hd, hu, h0]
       · simp only [hut, hd, ↓reduceIte, List.map_cons, List.sum_cons]
-        rw [h0 _ rfl, variants_sum g hs hv hl, hu]; simp
+        rw [h0 _ rfl, List.map_append, List.sum_append, List.map_map,
+          sum_map_const (g ∘ variantClone f (usesTClone sc f)) K _ (by intro k _; simp [hv, hu])]
+        simp [hl, hu, Nat.add_mul]
     · simp only [hut, Bool.false_eq_true, ↓reduceIte]
       rw [List.map_append, List.sum_append, List.map_map,
         sum_map_const (g ∘ defaultClone sc f) K _ (by intro k _; exact hdc k)]
@@ -190,7 +192,7 @@ theorem stage1Fn_sum_cw (sc : Scope) (f : Fn) (hc : sc.w0.c = true) (hf : sc.w0.
   · intro r h; simp [cw, h]
   · intro k; simp [cw, defaultClone, Fn.base, hc, hf]
   · simp [cw, original_wrap, original_hasBuf, hc, hf]
-  · simp [cw, Fn.base, hc, hf]
+  · simp [cw, usesTClone, Fn.base, hc, hf]
   · intro c hcm
     obtain ⟨h1, h2, _⟩ := templateClones_fields _ _ _ _ c hcm
     simp [cw, h1, h2, hc, hf, Fn.base]
@@ -206,7 +208,7 @@ theorem stage1Fn_sum_fw (sc : Scope) (f : Fn) (hf : sc.w0.f = true) :
   · intro r h; simp [fw, h]
   · intro k; simp [fw, defaultClone, Fn.base, hg, genericSuffixes_length, hf]
   · simp [fw, original_wrap, original_generics, hf, hg, genericSuffixes_length]
-  · simp [fw, Fn.base, hf, hg, genericSuffixes_length]
+  · simp [fw, usesTClone, Fn.base, hf, hg, genericSuffixes_length]
   · intro c hcm
     obtain ⟨h1, _, h3⟩ := templateClones_fields _ _ _ _ c hcm
     simp [fw, h1, h3, hf, Fn.base, hg, genericSuffixes_length]
@@ -626,14 +628,11 @@ theorem stage1Fn_mem (sc : Scope) (f : Fn) :
     · split at hr
       · simp only [List.mem_cons, List.not_mem_nil, or_false] at hr
         rcases hr with rfl | rfl <;> exact ⟨rfl, rfl⟩
-      · simp only [List.mem_cons] at hr
-        rcases hr with rfl | hr
+      · simp only [List.mem_cons, List.mem_append, List.mem_map, List.not_mem_nil, or_false] at hr
+        rcases hr with rfl | ⟨k, _, rfl⟩ | rfl
         · exact ⟨rfl, rfl⟩
-        · obtain ⟨r0, h0, e⟩ := numberVariants_mem _ _ r hr
-          simp only [List.mem_append, List.mem_map, List.mem_singleton] at h0
-          rcases h0 with ⟨k, _, rfl⟩ | rfl
-          · exact e
-          · exact ⟨e.1.trans (hvl _).1, e.2.trans (hvl _).2⟩
+        · exact ⟨rfl, rfl⟩
+        · exact hvl _
     · simp only [List.mem_append, List.mem_map, List.mem_singleton] at hr
       rcases hr with ⟨k, _, rfl⟩ | rfl
       · exact ⟨rfl, rfl⟩
@@ -917,12 +916,13 @@ theorem class_instantiations_separated (p n s1 s2 u1 u2 : Str)
   have ht := List.append_cancel_left (List.append_cancel_left ht)
   exact hne (tok_cancel (x := ['_'] ++ (u1 ++ t)) (y := ['_'] ++ u2) h1 h2 rfl rfl ht)
 
-/-- Members of a class template that use the template parameter (`template_function2`) are
-    not numbered: two such overloads get the same name (outside the domain `CoreOK`). -/
-theorem class_template_overloads_clash :
-    ¬ (((core exScope [{ exFn "push" 1 0 none with usesT := true },
-                       { exFn "push" 2 0 none with usesT := true }]).filter
-          (fun r => r.wrap.c)).map (cName exScope)).Nodup := by
+/-- Overloaded members of a class template that use the template parameter are numbered like
+    any other overload set (after the repair of `define_function_suffix`; before it both were
+    named `push`). -/
+example : ((core exScope [{ exFn "push" 1 0 none with usesT := true },
+                          { exFn "push" 2 0 none with usesT := true }]).filter
+      (fun r => r.wrap.c)).map (cName exScope)
+    = ["NM_outer_push_0", "NM_outer_push_1"].map String.toList := by
   decide +kernel
 
 /-! ### members under preprocessor conditions -/
